@@ -4,6 +4,8 @@ import BigtreeProofs.Lemmas.DagCons
 import BigtreeProofs.Lemmas.DagExport
 import BigtreeProofs.Lemmas.DagRows
 import BigtreeProofs.Lemmas.DagDict
+import BigtreeProofs.Lemmas.DagConsAttrs
+import BigtreeProofs.Lemmas.DagExportAttrs
 import BigtreeProofs.Properties.C16
 /-! # C17 — DAG exports are complete; re-importing them reproduces the DAG
 
@@ -36,23 +38,7 @@ theorem list_roundtrip {g : Dag} (wf : DWF g) (hc : g.Connected) {v : Nat} (hv :
   exact ⟨b, hb, rebuilt_of_tracks wf hc hne hrel t
     (endsOnly_nodes wf (fun e he => (hrel e).1 he) hk)⟩
 
-theorem diamond_connected : C16.diamond.Connected := by
-  intro u hu w hw
-  have h0 : ∀ x ∈ C16.diamond.nodes, C16.diamond.UReach 0 x :=
-    C16.connected_from_of_run (by decide)
-  have h1 : ∀ x ∈ C16.diamond.nodes, C16.diamond.UReach 1 x :=
-    C16.connected_from_of_run (by decide)
-  have h2 : ∀ x ∈ C16.diamond.nodes, C16.diamond.UReach 2 x :=
-    C16.connected_from_of_run (by decide)
-  have h3 : ∀ x ∈ C16.diamond.nodes, C16.diamond.UReach 3 x :=
-    C16.connected_from_of_run (by decide)
-  have : u = 0 ∨ u = 1 ∨ u = 2 ∨ u = 3 := by
-    simpa [C16.diamond, ofEdges, List.range, List.range.loop] using hu
-  rcases this with rfl | rfl | rfl | rfl
-  · exact h0 w hw
-  · exact h1 w hw
-  · exact h2 w hw
-  · exact h3 w hw
+theorem diamond_connected : C16.diamond.Connected := C16.connected_of_runs (by decide)
 
 example : ∃ b, listToDag (C16.diamond.dagToList 3) = .ok b ∧ b.dag.DWF ∧
     (∀ e, e ∈ b.dag.edges ↔ e ∈ C16.diamond.edges) ∧ (∀ x, x ∈ b.dag.nodes ↔ x ∈ C16.diamond.nodes) :=
@@ -120,12 +106,14 @@ theorem dict_export_each_edge_once {g : Dag} (wf : DWF g) (hc : g.Connected) {v 
       · exact inv.covers e heit
 
 /-- **Tier 1.** `dict_to_dag (dag_to_dict g)` succeeds and is a well-formed DAG with the same
-    edge set and the same node names as `g`. -/
+    edge set, the same node names as `g`, and every node carries exactly the attribute values
+    the export wrote for it (`expAttrs`: `all_attrs` / `attr_dict` selection of its attributes). -/
 theorem dict_roundtrip {g : Dag} (wf : DWF g) (hc : g.Connected) {v : Nat} (hv : v ∈ g.nodes)
     (hne : g.edges ≠ []) (sel : AttrSel) :
     ∃ d b, g.dagToDict sel v = some d ∧ dictToDag d = .ok b ∧ b.dag.DWF ∧
-      (∀ e, e ∈ b.dag.edges ↔ e ∈ g.edges) ∧ (∀ x, x ∈ b.dag.nodes ↔ x ∈ g.nodes) := by
-  obtain ⟨d, hd, hperm, _, hkeys, _, _⟩ := dict_export_each_edge_once wf hc hv hne sel
+      (∀ e, e ∈ b.dag.edges ↔ e ∈ g.edges) ∧ (∀ x, x ∈ b.dag.nodes ↔ x ∈ g.nodes) ∧
+      (∀ x ∈ g.nodes, ∀ k, (b.dag.attrs x).lookup k = (expAttrs g sel x).lookup k) := by
+  obtain ⟨d, hd, hperm, _, hkeys, _, hattrs⟩ := dict_export_each_edge_once wf hc hv hne sel
   have hrel : ∀ e, e ∈ dictRel d ↔ e ∈ g.edges := fun e => hperm.mem_iff
   have hrelne : dictRel d ≠ [] := fun h => hne (by simpa [h] using hperm.symm)
   have hdne : d ≠ [] := by rintro rfl; exact hrelne rfl
@@ -136,11 +124,29 @@ theorem dict_roundtrip {g : Dag} (wf : DWF g) (hc : g.Connected) {v : Nat} (hv :
     exact (mem_edges.1 ((hrel _).1 this)).1
   obtain ⟨b, hb, t, hnodes⟩ := (dictToDag_spec (S := (· ∈ g.nodes)) d hdne hS).1
     (relAcyclic_of_edges wf fun e he => (hrel e).1 he) hrelne
-  exact ⟨d, b, hd, hb, rebuilt_of_tracks wf hc hne hrel t hnodes⟩
+  obtain ⟨h1, h2, h3⟩ := rebuilt_of_tracks wf hc hne hrel t hnodes
+  refine ⟨d, b, hd, hb, h1, h2, h3, ?_⟩
+  intro x hx k
+  obtain ⟨ent, hent, rfl⟩ := mem_map.1 ((hkeys x).2 hx)
+  exact dictToDag_attrs (expAttrs g sel)
+    (fun e he => ⟨hattrs e he, nodup_keysOf_expAttrs g sel e.key⟩) hb ent hent k
 
-example : ∃ d b, C16.diamond.dagToDict .all 3 = some d ∧ dictToDag d = .ok b ∧ b.dag.DWF ∧
-    (∀ e, e ∈ b.dag.edges ↔ e ∈ C16.diamond.edges) ∧ (∀ x, x ∈ b.dag.nodes ↔ x ∈ C16.diamond.nodes) :=
-  dict_roundtrip C16.diamond_wf diamond_connected (by decide) (by decide) .all
+/-- diamond with attributes on two nodes (one private, one null) -/
+def diamondA : Dag := ofEdges 4 [(0, 1), (0, 2), (1, 3), (2, 3)] fun i =>
+  if i = 0 then [("s".toList, .int 1), ("_h".toList, .int 9)]
+  else if i = 3 then [("z".toList, .str "x".toList), ("s".toList, .null)] else []
+
+theorem diamondA_wf : DWF diamondA :=
+  ⟨by decide, by decide, by decide, by decide, by decide,
+   acyclic_of_rank id (by decide) (by decide)⟩
+
+theorem diamondA_connected : diamondA.Connected := C16.connected_of_runs (by decide)
+
+example : ∃ d b, diamondA.dagToDict .all 3 = some d ∧ dictToDag d = .ok b ∧ b.dag.DWF ∧
+    (∀ e, e ∈ b.dag.edges ↔ e ∈ diamondA.edges) ∧ (∀ x, x ∈ b.dag.nodes ↔ x ∈ diamondA.nodes) ∧
+    (∀ x ∈ diamondA.nodes, ∀ k, (b.dag.attrs x).lookup k = (expAttrs diamondA .all x).lookup k) :=
+  dict_roundtrip diamondA_wf diamondA_connected (by decide) (by decide) .all
+example : expAttrs diamondA .all 0 = [("s".toList, .int 1)] := by decide
 
 example : (C16.diamond.dagToDict .all 3).map (fun d => d.map fun e => (e.key, e.parents)) =
     some [(3, some [1, 2]), (0, none), (1, some [0]), (2, some [0])] := by decide
@@ -210,12 +216,28 @@ theorem rowsConsistent_dagToRows (g : Dag) (sel : AttrSel) (v : Nat) :
     simp [this]
   · simp [hn]
 
-/-- **Tier 1 (structure).** `dataframe_to_dag (dag_to_dataframe g)` succeeds and is a well-formed
-    DAG with the same edge set and the same node names as `g`. -/
+theorem attrs_of_mem_dagToRows {g : Dag} {sel : AttrSel} {v : Nat} {r : Row}
+    (hr : r ∈ g.dagToRows sel v) :
+    r.attrs = (columnsOf (g.rawRows sel v)).map (fun k =>
+        (k, ((expAttrs g sel r.name).lookup k).getD .null)) ∧
+      ∀ k ∈ keysOf (expAttrs g sel r.name), k ∈ columnsOf (g.rawRows sel v) := by
+  obtain ⟨r0, hr0, rfl⟩ := mem_dagToRows.1 hr
+  obtain ⟨e, _, ⟨_, rfl⟩ | rfl⟩ := mem_rawRows.1 hr0
+  · exact ⟨rfl, fun k hk => mem_columnsOf hr0 hk⟩
+  · exact ⟨rfl, fun k hk => mem_columnsOf hr0 hk⟩
+
+/-- **Tier 1.** `dataframe_to_dag (dag_to_dataframe g)` succeeds and is a well-formed DAG with
+    the same edge set and the same node names as `g`, and every node carries exactly the non-null
+    attribute values the export wrote for it (a null cell — an `attr_dict` attribute the node
+    lacks, or a column another node introduced — is read back as "no attribute"). -/
 theorem rows_roundtrip {g : Dag} (wf : DWF g) (hc : g.Connected) {v : Nat} (hv : v ∈ g.nodes)
     (hne : g.edges ≠ []) (sel : AttrSel) :
     ∃ b, rowsToDag (g.dagToRows sel v) = .ok b ∧ b.dag.DWF ∧
-      (∀ e, e ∈ b.dag.edges ↔ e ∈ g.edges) ∧ (∀ x, x ∈ b.dag.nodes ↔ x ∈ g.nodes) := by
+      (∀ e, e ∈ b.dag.edges ↔ e ∈ g.edges) ∧ (∀ x, x ∈ b.dag.nodes ↔ x ∈ g.nodes) ∧
+      (∀ x ∈ g.nodes, ∀ k, (b.dag.attrs x).lookup k =
+        match (expAttrs g sel x).lookup k with
+        | some .null => none
+        | o => o) := by
   obtain ⟨hperm, _, hnames, _⟩ := rows_export_each_edge_once wf hc hv hne sel
   have hrel : ∀ e, e ∈ rowsRel (g.dagToRows sel v) ↔ e ∈ g.edges := fun e => hperm.mem_iff
   have hrelne : rowsRel (g.dagToRows sel v) ≠ [] := fun h => hne (by simpa [h] using hperm.symm)
@@ -228,11 +250,40 @@ theorem rows_roundtrip {g : Dag} (wf : DWF g) (hc : g.Connected) {v : Nat} (hv :
     exact (mem_edges.1 ((hrel _).1 this)).1
   obtain ⟨b, hb, t, hnodes⟩ := (rowsToDag_spec (S := (· ∈ g.nodes)) _ hrne
     (rowsConsistent_dagToRows g sel v) hS).1 (relAcyclic_of_edges wf fun e he => (hrel e).1 he)
-  exact ⟨b, hb, rebuilt_of_tracks wf hc hne hrel t hnodes⟩
+  obtain ⟨h1, h2, h3⟩ := rebuilt_of_tracks wf hc hne hrel t hnodes
+  refine ⟨b, hb, h1, h2, h3, ?_⟩
+  intro x hx k
+  obtain ⟨r, hr, rfl⟩ := (hnames x).2 hx
+  have hcols := nodup_columnsOf (g.rawRows sel v)
+  have hA := rowsToDag_attrs
+    (fun y => nonNull ((columnsOf (g.rawRows sel v)).map fun c =>
+      (c, ((expAttrs g sel y).lookup c).getD .null)))
+    (rows := g.dagToRows sel v) (b := b)
+    (fun r' hr' => ⟨by rw [(attrs_of_mem_dagToRows hr').1], nodup_keysOf_nonNull (by
+      simpa [keysOf, Function.comp_def] using hcols)⟩) hb r hr k
+  rw [hA]
+  exact lookup_nonNull_align hcols (attrs_of_mem_dagToRows hr).2 k
 
-example : ∃ b, rowsToDag (C16.diamond.dagToRows .all 3) = .ok b ∧ b.dag.DWF ∧
-    (∀ e, e ∈ b.dag.edges ↔ e ∈ C16.diamond.edges) ∧ (∀ x, x ∈ b.dag.nodes ↔ x ∈ C16.diamond.nodes) :=
-  rows_roundtrip C16.diamond_wf diamond_connected (by decide) (by decide) .all
+example : ∃ b, rowsToDag (diamondA.dagToRows .all 3) = .ok b ∧ b.dag.DWF ∧
+    (∀ e, e ∈ b.dag.edges ↔ e ∈ diamondA.edges) ∧ (∀ x, x ∈ b.dag.nodes ↔ x ∈ diamondA.nodes) ∧
+    (∀ x ∈ diamondA.nodes, ∀ k, (b.dag.attrs x).lookup k =
+      match (expAttrs diamondA .all x).lookup k with
+      | some .null => none
+      | o => o) :=
+  rows_roundtrip diamondA_wf diamondA_connected (by decide) (by decide) .all
+example : (diamondA.dagToRows .all 3).map (·.attrs) =
+    [[("s".toList, .null), ("z".toList, .str "x".toList)],
+     [("s".toList, .null), ("z".toList, .str "x".toList)],
+     [("s".toList, .int 1), ("z".toList, .null)],
+     [("s".toList, .null), ("z".toList, .null)],
+     [("s".toList, .null), ("z".toList, .null)]] := by decide
+
+/-- with `all_attrs=True` the exported attributes of a node are exactly its public ones
+    (not `name`, not `_…`), whatever their order -/
+theorem all_attrs_exported {g : Dag} {x : Nat} (h : (keysOf (g.attrs x)).Nodup) (k : Str) :
+    (expAttrs g .all x).lookup k =
+      if k != "name".toList && k.head? != some '_' then (g.attrs x).lookup k else none :=
+  lookup_expAttrs_all h k
 
 example : (C16.diamond.dagToRows .all 3).map (fun r => (r.name, r.parent)) =
     [(3, some 1), (3, some 2), (0, none), (1, some 0), (2, some 0)] := by decide
